@@ -431,6 +431,11 @@ def check_c09(ctx, cls, obj, col, n, n_nan, params):
     for c in nn:
         if not contains(labels, c):
             labels.append(c)
+    if cls in ("QuantitativeDiscretizer", "Discretizer") and "f" in getattr(obj, "values_orders", {}):
+        # a fitted bucket that no training row falls in is a bucket holding 0 rows
+        fitted = [v for v in list(obj.values_orders["f"]) if not (isinstance(v, str) and v == NAN)]
+        ctx.require(len(fitted) <= max(len(labels), 1), "C09.quantitative-bucket-below-half-min-freq",
+                    f"{len(fitted)} fitted buckets {fitted!r} but only {len(labels)} of them hold training rows: an empty bucket holds 0/{N} rows < min_freq/2 = {mf / 2}")
     if cls in ("QuantitativeDiscretizer", "Discretizer") and len(labels) > 1:
         for l in labels:
             cnt = sum(1 for c in nn if bool(eqv(c, l)))
